@@ -1,9 +1,10 @@
 package hx
 
 import (
+	"fmt"
 	"math"
-	"os"
 	"math/rand"
+	"os"
 	"strings"
 	"time"
 )
@@ -664,7 +665,59 @@ func (g *Gen) zsetOp() *Op {
 // duplicates placed out of insertion order in a list followed by counted
 // removals from either end; set / sorted-set algebra where a non-first key has
 // expired but is still stored.
+// scanCases: a pattern, names it matches, names it does not (the glob grammar's corner cases:
+// literal brackets outside a class, an escaped star, ranges, negation, the empty pattern).
+var scanCases = []struct {
+	pat     string
+	yes, no []string
+}{
+	{"m*", []string{"m0", "m1"}, nil},
+	{"*]", []string{"a]", "b]"}, []string{"]a"}},
+	{"[[]*", []string{"[a", "[b"}, []string{"a["}},
+	{"?]?", []string{"a]b"}, []string{"]]"}},
+	{"*\\**", []string{"a*b", "*"}, []string{"ab"}},
+	{"[a-c]1", []string{"a1", "b1", "c1"}, []string{"d1", "a2"}},
+	{"[^x]*", []string{"m0", "a1"}, []string{""}},
+	{"[!x]?", []string{"m0"}, []string{"m00"}},
+	{"", []string{""}, []string{"m"}},
+	{"*", []string{"m0", "", "]"}, nil},
+}
+
+// scanBurst fills one collection with more elements than a default page holds (10), the ones the
+// pattern matches stored last, and iterates it with the pattern: the page limit must apply to the
+// matching elements, not to the stored ones.
+func (g *Gen) scanBurst() []*Step {
+	c := scanCases[g.pick(len(scanCases))]
+	key := g.key()
+	fam := []byte{'E', 'H', 'Z'}[g.pick(3)]
+	var names []string
+	for i := 0; i < 10; i++ {
+		names = append(names, fmt.Sprintf("x%d", i))
+	}
+	if c.pat == "*" {
+		names = names[:9]
+	}
+	names = append(names, c.no...)
+	names = append(names, c.yes...)
+	st := []*Step{{Ops: []*Op{KDelete(key)}}}
+	for i, n := range names {
+		switch fam {
+		case 'E':
+			st = append(st, &Step{Ops: []*Op{EAdd(key, VStr(n))}})
+		case 'H':
+			st = append(st, &Step{Ops: []*Op{HSet(key, n, VStr("v"))}})
+		default:
+			st = append(st, &Step{Ops: []*Op{ZAdd(key, VStr(n), float64(i%3))}})
+		}
+	}
+	st = append(st, CollIteration(fam, key, c.pat, []int{0, 1, 3, 10, 11}[g.pick(5)]))
+	return st
+}
+
 func (g *Gen) burst() []*Step {
+	if g.Prof.Scan && g.chance(0.6) {
+		return g.scanBurst()
+	}
 	var ops []*Op
 	k1, k2 := g.Keys[0], g.Keys[1%len(g.Keys)]
 	x, y := VStr(g.elemP[0]), VStr(g.elemP[1])
@@ -714,7 +767,7 @@ func (g *Gen) History(id int) *History {
 		if g.Prof.ExpireProb > 0 && g.chance(g.Prof.ExpireProb) {
 			h.Steps = append(h.Steps, &Step{Ops: []*Op{KExpireAt(g.key(), g.at())}})
 		}
-		if g.chance(0.04) {
+		if g.chance(0.04) || g.Prof.Scan && g.chance(0.03) {
 			// bursts that set up situations single random draws rarely reach
 			h.Steps = append(h.Steps, g.burst()...)
 			continue
@@ -791,20 +844,20 @@ func (h *History) Select(keep [][]int) *History {
 
 // Profiles are the named generator configurations.
 var Profiles = map[string]Profile{
-	"str":    {Name: "str", Families: map[string]int{"str": 8, "key": 2}, MinSteps: 5, MaxSteps: 60, Blocks: true, Expiry: true},
-	"key":    {Name: "key", Families: map[string]int{"str": 3, "key": 7}, MinSteps: 5, MaxSteps: 60, Blocks: true, Expiry: true},
-	"list":   {Name: "list", Families: map[string]int{"list": 10, "key": 1}, MinSteps: 5, MaxSteps: 60, Blocks: true, Expiry: true, ExpireProb: 0.06},
-	"set":    {Name: "set", Families: map[string]int{"set": 10, "key": 1}, MinSteps: 5, MaxSteps: 60, Blocks: true, Expiry: true, ExpireProb: 0.06},
-	"hash":   {Name: "hash", Families: map[string]int{"hash": 10, "key": 1}, MinSteps: 5, MaxSteps: 60, Blocks: true, Expiry: true, ExpireProb: 0.06},
-	"zset":   {Name: "zset", Families: map[string]int{"zset": 10, "key": 1}, MinSteps: 5, MaxSteps: 60, Blocks: true, Expiry: true, ExpireProb: 0.06},
-	"expiry": {Name: "expiry", Families: map[string]int{"str": 2, "list": 2, "set": 2, "hash": 2, "zset": 2, "key": 4}, MinSteps: 5, MaxSteps: 80, Blocks: true, Expiry: true, ExpireProb: 0.25},
-	"txmix":  {Name: "txmix", Families: map[string]int{"str": 2, "list": 3, "set": 2, "hash": 2, "zset": 2, "key": 2}, MinSteps: 3, MaxSteps: 40, Blocks: true, Expiry: true, BlockProb: 0.6},
-	"refuse": {Name: "refuse", Families: map[string]int{"str": 2, "list": 2, "set": 2, "hash": 2, "zset": 2, "key": 1}, MinSteps: 5, MaxSteps: 60, Blocks: true, Expiry: false, BlockProb: 0.3},
-	"scan":   {Name: "scan", Families: map[string]int{"str": 1, "list": 1, "set": 4, "hash": 4, "zset": 4, "key": 3}, MinSteps: 10, MaxSteps: 70, Blocks: true, Expiry: true, Scan: true},
-	"binary": {Name: "binary", Families: map[string]int{"str": 3, "list": 2, "set": 2, "hash": 3, "zset": 2, "key": 3}, MinSteps: 5, MaxSteps: 50, Blocks: true, Expiry: false, Binary: true, Scan: true},
-	"glob":   {Name: "glob", Families: map[string]int{"str": 3, "set": 2, "hash": 2, "zset": 2, "key": 6}, MinSteps: 10, MaxSteps: 60, Blocks: false, Expiry: false, Glob: true, Scan: true},
+	"str":     {Name: "str", Families: map[string]int{"str": 8, "key": 2}, MinSteps: 5, MaxSteps: 60, Blocks: true, Expiry: true},
+	"key":     {Name: "key", Families: map[string]int{"str": 3, "key": 7}, MinSteps: 5, MaxSteps: 60, Blocks: true, Expiry: true},
+	"list":    {Name: "list", Families: map[string]int{"list": 10, "key": 1}, MinSteps: 5, MaxSteps: 60, Blocks: true, Expiry: true, ExpireProb: 0.06},
+	"set":     {Name: "set", Families: map[string]int{"set": 10, "key": 1}, MinSteps: 5, MaxSteps: 60, Blocks: true, Expiry: true, ExpireProb: 0.06},
+	"hash":    {Name: "hash", Families: map[string]int{"hash": 10, "key": 1}, MinSteps: 5, MaxSteps: 60, Blocks: true, Expiry: true, ExpireProb: 0.06},
+	"zset":    {Name: "zset", Families: map[string]int{"zset": 10, "key": 1}, MinSteps: 5, MaxSteps: 60, Blocks: true, Expiry: true, ExpireProb: 0.06},
+	"expiry":  {Name: "expiry", Families: map[string]int{"str": 2, "list": 2, "set": 2, "hash": 2, "zset": 2, "key": 4}, MinSteps: 5, MaxSteps: 80, Blocks: true, Expiry: true, ExpireProb: 0.25},
+	"txmix":   {Name: "txmix", Families: map[string]int{"str": 2, "list": 3, "set": 2, "hash": 2, "zset": 2, "key": 2}, MinSteps: 3, MaxSteps: 40, Blocks: true, Expiry: true, BlockProb: 0.6},
+	"refuse":  {Name: "refuse", Families: map[string]int{"str": 2, "list": 2, "set": 2, "hash": 2, "zset": 2, "key": 1}, MinSteps: 5, MaxSteps: 60, Blocks: true, Expiry: false, BlockProb: 0.3},
+	"scan":    {Name: "scan", Families: map[string]int{"str": 1, "list": 1, "set": 4, "hash": 4, "zset": 4, "key": 3}, MinSteps: 10, MaxSteps: 70, Blocks: true, Expiry: true, Scan: true},
+	"binary":  {Name: "binary", Families: map[string]int{"str": 3, "list": 2, "set": 2, "hash": 3, "zset": 2, "key": 3}, MinSteps: 5, MaxSteps: 50, Blocks: true, Expiry: false, Binary: true, Scan: true},
+	"glob":    {Name: "glob", Families: map[string]int{"str": 3, "set": 2, "hash": 2, "zset": 2, "key": 6}, MinSteps: 10, MaxSteps: 60, Blocks: false, Expiry: false, Glob: true, Scan: true},
 	"expcoll": {Name: "expcoll", Families: map[string]int{"set": 5, "zset": 5, "list": 2, "hash": 2, "key": 3}, MinSteps: 8, MaxSteps: 60, Blocks: true, Expiry: true, ExpireProb: 0.3},
-	"mixed":  {Name: "mixed", Families: map[string]int{"str": 2, "list": 2, "set": 2, "hash": 2, "zset": 2, "key": 3}, MinSteps: 5, MaxSteps: 80, Blocks: true, Expiry: true},
+	"mixed":   {Name: "mixed", Families: map[string]int{"str": 2, "list": 2, "set": 2, "hash": 2, "zset": 2, "key": 3}, MinSteps: 5, MaxSteps: 80, Blocks: true, Expiry: true},
 }
 
 // Regenerate reproduces history number hid of a seeded run.
